@@ -74,6 +74,9 @@ func checkC13(c *Ctx) {
 	c.Rule("C13-R22", "storing the content a cell already has dirties nothing: SetContent dirties covered columns only inside the content-changed test (= C08-R6)")
 	c.Expect("C13-R22", 1)
 	c.asRule("C08-R6", "C13-R22", func() { c08Wide(c, p, cbMethods(p)) })
+	c.Rule("C13-R23", "locked cells are never written: the last-cell workaround (write the corner's content one cell to the left, insert a character, repaint that cell) is taken only where the cell it writes on is known not to be locked, since its repaint goes through drawCell, which refuses a locked cell (known finding on today's tree)")
+	c.Expect("C13-R23", 1)
+	checkCornerTrickSparesLockedNeighbour(c, p, "C13-R23")
 	c.Rule("C13-R10", "a cell marked dirty (marker rune zero: SetDirty(true), Invalidate, UnlockCell) is reported dirty whatever it holds, also one nothing was ever stored in; combining runes are compared in full")
 	c.Expect("C13-R10", 2)
 	c.asRule("C08-R9", "C13-R10", func() { checkDirtyDecisions(c, p, "C08-R9") })
